@@ -27,6 +27,8 @@ pub struct GenOpts {
     pub broken_guards: bool,
     pub expr_depth: usize,
     pub addr_base: u64,
+    /// one function in three gets blocks whose instruction indices are not dense
+    pub sparse_indices: bool,
 }
 
 impl Default for GenOpts {
@@ -49,6 +51,7 @@ impl Default for GenOpts {
             broken_guards: false,
             expr_depth: 2,
             addr_base: 0x1000,
+            sparse_indices: true,
         }
     }
 }
@@ -242,6 +245,7 @@ pub fn generate(rng: &mut Rng, o: &GenOpts) -> Gen {
         cfg.new_block().unwrap();
     }
     // ---- instructions
+    let sparse = o.sparse_indices && rng.chance(1, 3);
     let mut next_addr: u64 = o.addr_base;
     let addr_base = next_addr;
     let mut branch_targets_needed: Vec<(usize, usize)> = Vec::new(); // (block, instr index) of Branch ops to patch
@@ -270,8 +274,15 @@ pub fn generate(rng: &mut Rng, o: &GenOpts) -> Gen {
                 }
             }
         }
+        let mut sacrificial: Vec<usize> = Vec::new();
         while ninstr > 0 {
             ninstr -= 1;
+            if sparse && rng.chance(1, 4) {
+                // a throw-away instruction, removed again below: the remaining instruction indices
+                // are then not dense (index != position), as after Block::remove_instruction
+                block.nop();
+                sacrificial.push(block.instructions().last().unwrap().index());
+            }
             let k = rng.below(20);
             // stack pointer arithmetic
             if let Some(sp) = &o.sp {
@@ -388,6 +399,9 @@ pub fn generate(rng: &mut Rng, o: &GenOpts) -> Gen {
                     block.assign(dst, e);
                 }
             }
+        }
+        for idx in sacrificial {
+            block.remove_instruction(idx).unwrap();
         }
         // addresses
         let idxs: Vec<usize> = block.instructions().iter().map(|i| i.index()).collect();
